@@ -479,6 +479,7 @@ class Violation:
         self.clause = clause
         self.detail = detail
         self.model = model
+        self.alternatives = []
 
 
 _SOLVER = [None, 0]
@@ -639,14 +640,14 @@ class SymCtx:
     def const(self, v):
         return SymInt.const(v, "L")
 
-    def int(self, name, lo=None, hi=None, kind="N"):
+    def int(self, name, lo=None, hi=None, kind="N", group=None):
         v = self._var(name, "int")
         if lo is not None:
             self.solver.add(v >= lo)
         if hi is not None:
             self.solver.add(v <= hi)
         self.model = None
-        return SymInt(v, kind)
+        return SymInt(v, kind, group)
 
     def bool(self, name):
         return SymBool(self._var(name, "bool"))
@@ -695,7 +696,9 @@ class SymCtx:
         if isinstance(cond, SymBool):
             t = cond.term()
             if self.check(z3.Not(t)) == z3.sat:
-                self.violations.append(Violation(clause, detail, self.model_dict()))
+                v = Violation(clause, detail, self.model_dict())
+                v.alternatives = self._more_models(z3.Not(t), v.model)
+                self.violations.append(v)
                 # the path continues under cond so later clauses are meaningful
             self.solver.add(t)
             self.model = None
@@ -704,7 +707,33 @@ class SymCtx:
         elif not cond:
             if self.check() != z3.sat:
                 raise SymxEngineError("infeasible path reached a failing assertion")
-            self.violations.append(Violation(clause, detail, self.model_dict()))
+            v = Violation(clause, detail, self.model_dict())
+            v.alternatives = self._more_models(None, v.model)
+            self.violations.append(v)
+
+    def _more_models(self, extra, first, k=6):
+        """Further models of the violating path (a replay can fail for reasons the
+        symbolic run cannot see, e.g. real hash order): block the integer values of
+        the previous models and ask again."""
+        out = []
+        ints = [(n, v) for n, (v, sort) in self.vars.items() if sort == "int"]
+        if not ints:
+            return out
+        self.solver.push()
+        try:
+            if extra is not None:
+                self.solver.add(extra)
+            cur = first
+            for _ in range(k):
+                self.solver.add(z3.Or(*[v != cur[n] for n, v in ints]))
+                if self.solver.check() != z3.sat:
+                    break
+                cur = self.model_dict()
+                out.append(cur)
+        finally:
+            self.solver.pop()
+        self.model = None
+        return out
 
     def model_dict(self):
         m = self.solver.model()  # callers have just had a sat answer
@@ -761,7 +790,7 @@ class ConcreteCtx:
     def const(self, v):
         return int(v)
 
-    def int(self, name, lo=None, hi=None, kind="N"):
+    def int(self, name, lo=None, hi=None, kind="N", group=None):
         v = int(self._get(name, lo if lo is not None else 0))
         return v
 
